@@ -234,12 +234,116 @@ def rule_cicp_layout(ctx):
         ctx.ok(rid, "codes", "parser: %s; TransferFunction::cicp(): Pq=%s Hlg=%s" % (mapped, codes.get("Pq"), codes.get("Hlg")), nontrivial=True, fn=r)
 
 
+def rule_xy_unclamped(ctx):
+    """custom chromaticities recovered from a profile are not range-limited"""
+    rid = "R-XY-UNCLAMPED"
+    ctx.rule(rid, "Customxy coordinates are signed millionths and may lie outside [0, 1] (ACES AP0 blue has y < 0; wide synthetic gamuts "
+                  "exceed 1): wherever the ICC parser builds a Customxy, the backward data-flow slice of its operands (through "
+                  "arithmetic, casts, same-crate helpers and closures handed to map()) contains no clamp / min / max: the synthesiser "
+                  "writes the coordinates unclamped (x as f32 / 1e6), so a limited reader cannot return what was written")
+    col = ctx.prog.crate("jxl_color")
+    sites = []
+    for f in col.fn_list:
+        if f.kind == "Promoted" or "icc::parse" not in f.path:
+            continue
+        for b, blk in enumerate(f.blocks):
+            if blk[2]:
+                continue
+            for st in blk[0]:
+                if st[0] == "=" and st[2][0] == "agg" and st[2][1][0] == "adt" and st[2][1][1].endswith("::Customxy"):
+                    sites.append((f, st))
+    if not sites:
+        ctx.anchor_missing(rid, "construction of Customxy in jxl_color::icc::parse")
+        return
+    LIMIT = ("::clamp", "::min", "::max", "::minimum", "::maximum")
+
+    def slice_calls(f, seeds, depth=0, seen_fn=None):
+        """limiting calls in the backward slice of `seeds` (locals of f)"""
+        seen_fn = seen_fn if seen_fn is not None else set()
+        d = Defs(f)
+        out = []
+        seen = set()
+        work = list(seeds)
+        while work:
+            l = work.pop()
+            if l is None or l in seen:
+                continue
+            seen.add(l)
+            for df in d.of(l):
+                if f.is_cleanup(df[0]):
+                    continue
+                if df[2] == "assign":
+                    rv = df[3][2]
+                    ops = []
+                    if rv[0] in ("use", "repeat"):
+                        ops = [rv[1]]
+                    elif rv[0] == "cast":
+                        ops = [rv[2]]
+                    elif rv[0] == "bin":
+                        ops = [rv[2], rv[3]]
+                    elif rv[0] == "un":
+                        ops = [rv[2]]
+                    elif rv[0] == "agg":
+                        ops = list(rv[2])
+                        if rv[1][0] == "closure" and depth < 3:
+                            g = ctx.prog.fn(rv[1][1])
+                            if g is not None and g.path not in seen_fn:
+                                seen_fn.add(g.path)
+                                out += slice_calls(g, [0], depth + 1, seen_fn)
+                    elif rv[0] == "ref":
+                        work.append(rv[2][0])
+                    for o in ops:
+                        p = op_place(o)
+                        if p is not None:
+                            work.append(p[0])
+                            for e in p[1:]:
+                                if isinstance(e, list) and e[0] == "[]":
+                                    pass
+                elif df[2] == "call":
+                    t = df[3]
+                    c = callee(t)
+                    nm = (c.get("res") or c["fn"]) if c else ""
+                    last = nm.split("::")[-1].split("<")[0]
+                    if c and ("::" + last) in LIMIT and ("f32" in nm or "f64" in nm or "cmp::Ord" in nm or "num::" in nm):
+                        out.append((f, t))
+                    for a in t[2]:
+                        p = op_place(a)
+                        if p is not None:
+                            work.append(p[0])
+                    g = ctx.prog.fn(nm) if c else None
+                    if g is not None and g.crate == f.crate and depth < 3 and g.path not in seen_fn:
+                        seen_fn.add(g.path)
+                        out += slice_calls(g, [0], depth + 1, seen_fn)
+        return out
+
+    done = set()
+    for f, st in sites:
+        if f.path in done:
+            continue
+        done.add(f.path)
+        ctx.seen(f)
+        seeds = [op_local(o) for o in st[2][2]]
+        allseeds = []
+        for f2, st2 in sites:
+            if f2 is f:
+                allseeds += [op_local(o) for o in st2[2][2]]
+        lim = slice_calls(f, [x for x in allseeds if x is not None])
+        if lim:
+            g, t = lim[0]
+            ctx.bad(rid, "limited:%s" % f.path, "%s builds a Customxy from a value that went through %s (in %s): chromaticities outside [0, 1], "
+                    "which the format allows and the synthesiser writes, do not survive the profile round trip"
+                    % (f.path.split("::")[-1], callee(t)["fn"].split("::")[-1], g.path.split("::")[-1]), fn=g, pos=t[-2])
+        else:
+            ctx.ok(rid, "unlimited:%s" % f.path, "no clamp/min/max in the slice of the coordinates", nontrivial=True, fn=f)
+
+
 def main(pid, tier, repo=None):
     ctx = Ctx(pid, tier, configs=("workspace",), repo=repo)
     specconst.run(ctx, pid, floor=20)
     from . import enummap
     enummap.run(ctx, pid)
     rule_cicp_layout(ctx)
+    rule_xy_unclamped(ctx)
     ctx.not_decided("numerical tolerance statements over real-valued functions: that the synthesised profile parses back to an equivalent "
                     "encoding for custom chromaticities and arbitrary gamma, that each transfer function's two directions compose to the "
                     "identity and are monotone, no-op detection of equivalent encodings")
